@@ -6,6 +6,8 @@ compiles (g++ -fsyntax-only with AVR-like flags against the mock core) and - for
 """
 from __future__ import annotations
 
+import hashlib
+import os
 import re
 
 from hypothesis import Phase, given, seed as hseed, strategies as st
@@ -29,7 +31,8 @@ ASSUMPTIONS = [
     "constructs of open compile-level findings (**, literal+literal string concatenation, try/except, forward helper calls, names first assigned in the main loop, helpers using ultrasonic/LCD state, unannotated non-int parameters) are off by construction; their witnesses run",
 ]
 
-OFF = {"pow", "str_lit_plus_lit", "try", "forward_helper_call", "loop_first_assign", "unannotated_param", "multi_signature", "retype", "branch_first_assign",
+# int_truediv is semantic (C01) but also re-types the tracked variable to int, which then creates a second helper overload (multi_signature)
+OFF = {"int_truediv", "pow", "str_lit_plus_lit", "try", "forward_helper_call", "loop_first_assign", "unannotated_param", "multi_signature", "retype", "branch_first_assign",
        "list_elem_assign", "helper_uses_late_helpers", "macro_effectful_arg", "for_bound_mutated"}
 PROFILE = gs.Profile(name="compile", devices=0.8, loop_decl=0.35, hostile_strings=True, off=OFF, max_stmts=10, helpers=3)
 
@@ -88,6 +91,12 @@ def check_text(src, link=False):
     return "ok", "", cpp
 
 
+def _err_sig(detail):
+    """First compiler error with positions removed: the shrinker must keep *this* error, not merely the same kind."""
+    m = re.search(r"error: (.*)", detail or "")
+    return m.group(1) if m else (detail or "")[:80]
+
+
 def nontrivial(feats, src):
     fs = set(feats)
     if fs & {"helper_def", "list_literal", "list_comp"}:
@@ -106,12 +115,14 @@ def run_shard(name, seed, tier, n):
     r = Result()
     found = {}
     counter = [0]
+    digests = []
 
     @hseed(seed)
     @hyp_settings(n, phases=(Phase.generate,))
     @given(gs.program_strategy(PROFILE))
     def prop(prog):
         src = gs.render(prog["nodes"])
+        digests.append(src)
         counter[0] += 1
         status, bucket, detail = check_text(src, link=(counter[0] % 4 == 0))
         r.count("status:" + status)
@@ -126,10 +137,14 @@ def run_shard(name, seed, tier, n):
                 found[bucket] = (src, prog["nodes"], detail)
 
     prop()
+    if os.environ.get("VERIF_DEBUG_DIGEST"):
+        r.count(f"digest:{name}:{hashlib.md5(''.join(digests).encode()).hexdigest()[:8]}")
     for bucket, (src, nodes, detail) in found.items():
-        def still(cand, bucket=bucket):
-            st_, b, _ = check_text(gs.render(cand))
-            return st_ == "FAIL" and b == bucket
+        sig = _err_sig(detail)
+
+        def still(cand, bucket=bucket, sig=sig):
+            st_, b, d = check_text(gs.render(cand))
+            return st_ == "FAIL" and b == bucket and _err_sig(d) == sig
         small, evals = shrink.shrink_nodes(nodes, still, max_evals=80 if tier == "quick" else 250, protect=gs.is_decl)
         s2 = gs.render(small)
         st2, b2, d2 = check_text(s2, link=True)
